@@ -16,8 +16,12 @@ for sid in seeds:
     wt = "/tmp/reseed_" + pid
     sh("git -C /repo worktree remove --force %s" % wt)
     r = sh("git -C /repo worktree add -q %s HEAD" % wt)
-    a = sh("git apply --3way %s" % os.path.join(d, "patch.diff"), cwd=wt)
-    res = {"repo_head": head, "patch_applies": a.returncode == 0}
+    # a seed whose original patch no longer fits the repaired code is kept ported (same idea, current code)
+    pf = os.path.join(d, "patch_at_head.diff")
+    if not os.path.exists(pf):
+        pf = os.path.join(d, "patch.diff")
+    a = sh("git apply --3way %s" % pf, cwd=wt)
+    res = {"repo_head": head, "patch_applies": a.returncode == 0, "patch_file": os.path.basename(pf)}
     if a.returncode != 0:
         res["apply_log"] = a.stdout[-500:]
     else:
